@@ -3,7 +3,8 @@
 (* X / Xm crossings pass straight in [arcs], so the circles of the unresolved diagram are its components *)
 let n_components (l : link) : int = Stdlib.List.length (circles l)
 
-let tables (l : link) (np : int) (nn : int) : string =
+let tables (l : link) (np0 : int) (nn0 : int) : string =
+  match model_signs l np0 nn0 with Error e -> e | Ok (np, nn) ->
   (* crossings of type X/Xm pass straight: arcs pairs (0,2),(1,3), which [circles] uses for unresolved types *)
   let knot = (n_components l = 1) in
   let seg red =
